@@ -566,8 +566,14 @@ func genBufScenario(rng *rand.Rand, profile string, mode string) *BScenario {
 			if shape >= 1 && c == 1 {
 				reads = rng.Intn(nv) // the slowest consumer reads less (maybe nothing)
 			}
+			// a consumer commits either once at the end or after every value: several commit rounds while the others are
+			// parked change who has been waiting longest on the buffer's condition variable (cleaner or parked Get)
+			stepwise := rng.Intn(2) == 0
 			for i := 0; i < reads; i++ {
 				ops = append(ops, BOp{K: "get", C: c, Ctx: 1})
+				if stepwise && i < reads-1 {
+					ops = append(ops, BOp{K: "commit", C: c})
+				}
 			}
 			if reads > 0 {
 				ops = append(ops, BOp{K: "commit", C: c})
